@@ -17,6 +17,13 @@ pub struct Profile {
     /// Bit i set: client i is built with a different protocol (one more registration).
     #[serde(default)]
     pub wrong_proto: u8,
+    /// How the protocol of those clients differs (`AppCfg::proto_variant`, 1..=4).
+    #[serde(default = "one")]
+    pub wrong_variant: u8,
+}
+
+fn one() -> u8 {
+    1
 }
 
 impl Default for Profile {
@@ -30,6 +37,7 @@ impl Default for Profile {
             client_role: Role::ClientOnly,
             heal_rounds: 10,
             wrong_proto: 0,
+            wrong_variant: 1,
         }
     }
 }
